@@ -58,6 +58,7 @@ OPS = [
 
 
 OPS_EXTRA = True
+OPS_SHADOW = True
 SIBLINGS = [('copyable', 'cloneable'), ('cloneable', 'defaultable'), ('size', 'alignment'), ('prologue', 'epilogue'), ('target_size', 'size'),
             ('singleton', 'align'), ('base_name', 'original_name'), ('size', 'region_size'), ('last_address', 'size'), ('visibility', 'Visibility::Private'),
             ('doc', 'None'), ('idx', 'index'), ('associated_functions', 'vftable_functions'), ('base_vfunc', 'derived_vfunc'), ('scope_types', 'scope_modules'),
@@ -117,6 +118,12 @@ def mutants_of(rel):
                 if 'fn ' in ls and a_ == r'\bpub ' and 'quote' not in ls and '#' not in ls:
                     continue
                 out.append((rel, i, l, l[:m.start()] + b_ + l[m.end():], 'template: %s -> %s' % (m.group(0).strip(), b_.strip() or '(dropped)')))
+        # a value tampered with right after it was bound (the type decides which of these compile)
+        m = re.match(r'^(\s*)let (?:mut )?([a-z_][a-z0-9_]*)(?:: [^=]+)? = .*;$', l)
+        if m and OPS_SHADOW:
+            ind, nm = m.group(1), m.group(2)
+            for rhs, what in (('%s + 1' % nm, '+1'), ('!%s' % nm, 'negated'), ('None', 'None'), ('Default::default()', 'default')):
+                out.append((rel, i, l, l + '\n' + ind + 'let %s = %s;' % (nm, rhs), 'shadow: %s = %s' % (nm, what)))
         # negated condition
         m = re.match(r'^(\s*(?:\} else )?if )(?!let )(.+)( \{)$', l)
         if m and 'if let' not in l and OPS_EXTRA:
@@ -210,6 +217,9 @@ def main():
     allm = []
     for f in files:
         allm += mutants_of(f)
+    only = opt('--only', None)
+    if only:
+        allm = [m for m in allm if only in m[4]]
     prev = opt('--skip-done', None)
     if prev and os.path.exists(prev):
         done = {(r['file'], r['line'], r['new']) for r in json.load(open(prev))}
